@@ -382,7 +382,7 @@ func (w *gateWorld) runSequence(seq []int, outcomes *engine.Counter, fed *int64)
 }
 
 func c25Gate(r *engine.Run) gateResult {
-	res := gateResult{outcomes: engine.NewCounter(), depth: 3}
+	res := gateResult{outcomes: engine.NewCounter(), depth: r.Pick(3, 4)}
 	w := newGateWorld(r)
 	if w == nil {
 		return res
